@@ -108,21 +108,30 @@ def select_histories(records, n, r):
             pool.append(rec)
     r.shuffle(pool)
 
-    def kinds(rec):
-        """operation kinds that are followed by a later successful invocation (so their effect is judged)"""
+    def kinds(rec, sandwiched=False):
+        """operation kinds that are followed by a later successful invocation (so their effect is judged); sandwiched:
+        and preceded by a successful one (the operation hits a build directory that already holds a finished build -
+        the incremental case proper)"""
         h = rec["hist"]
-        last_ok = max([i for i, x in enumerate(h) if x["op"] == "Done" and x["exit"] == 0] or [-1])
-        return {x["op"] for i, x in enumerate(h) if i < last_ok and x["op"] in SAFE_OPS + FAULTS}
+        oks = [i for i, x in enumerate(h) if x["op"] == "Done" and x["exit"] == 0]
+        last_ok = max(oks or [-1])
+        first_ok = min(oks or [len(h)])
+        return {x["op"] for i, x in enumerate(h) if i < last_ok and (not sandwiched or i > first_ok) and x["op"] in SAFE_OPS + FAULTS}
 
     picks, covered = [], set()
-    for want in SAFE_OPS + FAULTS:
-        if want in covered:
-            continue
-        for rec in pool:
-            if want in kinds(rec) and rec not in picks:
-                picks.append(rec)
-                covered |= kinds(rec)
-                break
+    # first the incremental case proper for every operation, then any operation not yet covered at all
+    for sandwiched in (True, False):
+        done = set()
+        for want in SAFE_OPS + FAULTS:
+            if want in done or (not sandwiched and want in covered):
+                continue
+            for rec in pool:
+                if want in kinds(rec, sandwiched) and (rec not in picks or sandwiched):
+                    if rec not in picks:
+                        picks.append(rec)
+                    done |= kinds(rec, sandwiched)
+                    covered |= kinds(rec)
+                    break
     for rec in pool:
         if len(picks) >= n:
             break
